@@ -45,10 +45,12 @@ Print Assumptions C11_match_flag_sound.
 (* ---- listener events ---- *)
 
 (* Every operation that a rewriter call creates, erases, or whose operand list it changes is reported:
-   by a modification event of the op, or by the insertion / removal event of an op whose walk() holds
-   it -- for every call except inline_block with arg_values. *)
+   by a modification event of the op, by the removal event of an op whose walk() holds it, or by the
+   insertion event of the new op it was created with -- for every call except inline_block with
+   arg_values. *)
 Theorem C11_events_complete_partial : forall (M : Sem), EvLaws M -> forall a c r c1 r1 t o,
-  no_silent_rewrite a -> exec M true a c r = (c1, r1, t) -> changed M c c1 o -> covered M t o.
+  no_silent_rewrite a -> exec M true a c r = (c1, r1, t) -> changed M c c1 o ->
+  covered M (action_news a) t o.
 Proof. exact events_complete. Qed.
 Print Assumptions C11_events_complete_partial.
 
@@ -58,7 +60,7 @@ Theorem C11_events_complete_refuted :
   exists a, resolve (build w_ir3) w_r1 (TInlineBlock 1 (IPBefore 1) [VRes 3 0]) = Some a /\
             changed cir_sem (build w_ir3) (apply cir_sem true a (build w_ir3) w_r1) 2 /\
             In 2 (alive cir_sem (build w_ir3)) /\
-            ~ covered cir_sem (snd (exec cir_sem true a (build w_ir3) w_r1)) 2 /\
+            ~ covered cir_sem [] (snd (exec cir_sem true a (build w_ir3) w_r1)) 2 /\
             sets_flag cir_sem true a (build w_ir3) w_r1 = true.
 Proof. exact events_complete_refuted. Qed.
 Print Assumptions C11_events_complete_refuted.
